@@ -13,7 +13,7 @@ def _job(job):
     seed, n, kind = job
     logging.disable(logging.CRITICAL)
     from bounded import nbspace, mergespace, mergeoracles as mo
-    rnd = random.Random(seed)
+    rnd = random.Random(abs(seed))
     out, cnt, keys, sample = [], 0, set(), None
     if kind == 'laws':
         for pi, (b, x) in enumerate(nbspace.pairs(seed, n, max_edits=3)):
@@ -80,6 +80,8 @@ def run(res):
     jobs = [(res.seed * 6151 + s, 40 if q else 120, 'laws') for s in range(32 if q else 96)]
     jobs += [(res.seed * 6151 + 500 + s, 60 if q else 150, 'symmetry') for s in range(32 if q else 96)]
     jobs += [(res.seed * 6151 + 900 + s, 800 if q else 6000, 'json') for s in range(16)]
+    # the systematic sweep of the pair space (every pool cell x every edit operation; negative seeds select it) for the laws
+    jobs += [(-(res.seed * 17 + s + 1), 0, 'laws') for s in range(1 if q else 4)]
     seen = set()
     for cnt, fails, keys, sample in common.pmap(_job, jobs):
         res.evaluations += cnt
